@@ -1,6 +1,6 @@
 import logging
 from jax import vmap
-from jax.numpy import dot, square, isnan, any, eye, zeros, arange, ndim
+from jax.numpy import dot, square, isnan, any, eye, zeros, arange, ndim, where, sqrt, asarray
 from jax.numpy import sum as arraysum
 from jax.numpy import diag as diagonal
 from jax.numpy.linalg import cholesky
@@ -273,8 +273,36 @@ class _LandmarksConditional:
         L = _get_L(xu, cov_func, jitter)
         A = solve_triangular(L, Kuf, lower=True)
 
+        r = y - mu
+        per_cell = (
+            not y_is_mean
+            and y_cov_factor is None
+            and sigma is not None
+            and ndim(sigma) == 1
+        )
+        if per_cell:
+            # One noise level per cell: the noise belongs to the observations, not to the
+            # landmarks.  Whiten the observations, A D^-1/2 and D^-1/2 r with D = diag(max(sigma^2, jitter)),
+            # and solve the unit-noise problem (I + A D^-1 A^T) z = A D^-1 r.
+            sigma = asarray(sigma)
+            if sigma.shape[0] != x.shape[0]:
+                message = (
+                    f"The per-cell `sigma` has {sigma.shape[0]:,} entries but there are "
+                    f"{x.shape[0]:,} cells."
+                )
+                logger.error(message)
+                raise ValueError(message)
+            variances = where(square(sigma) < jitter, jitter, square(sigma))
+            scale = 1 / sqrt(variances)
+            A = A * scale[None, :]
+            r = r * scale if ndim(r) == 1 else r * scale[:, None]
+            noise_sigma, noise_factor = 1.0, None
+            sigma = None
+
         LLB = dot(A, A.T)
-        if y_is_mean:
+        if per_cell:
+            LLB = LLB + eye(xu.shape[0])
+        elif y_is_mean:
             logger.debug("Assuming y is the mean of the GP.")
             LLB = stabilize(LLB, jitter)
         else:
@@ -292,7 +320,6 @@ class _LandmarksConditional:
             LLB = add_variance(LLB, y_cov_factor, jitter=jitter)
 
         L_B = cholesky(LLB)
-        r = y - mu
         c = solve_triangular(L_B, dot(A, r), lower=True)
         z = solve_triangular(L_B.T, c)
         weights = solve_triangular(L.T, z)
